@@ -13,11 +13,20 @@
 //	          roots x every registration order; every graph with >= 1 self-dependency on
 //	          1..3 roots x every order; every graph on 1..3 roots x every order x every
 //	          behaviour vector; 4 roots: every DAG x every order x 1 non-plain root.
+//	          Capability families (caps.go): an entry of an expression set is nil or an
+//	          expression implementing one of the 15 non-empty subsets of {Source, Preparer,
+//	          Validator, Finalizer}, behaving ok / failing execution / failing validation
+//	          (32 symbols); 1-2 roots x 1-2 sets per root (sets may be empty) x the acyclic
+//	          graphs x all orders x every symbol sequence with <= 3 entries in total (2 roots
+//	          with 2 sets: <= 2); the roots' own {Preparer, Validator, Finalizer} subsets
+//	          (12 kinds) x <= 2 entries (2 roots: <= 1).
 //	thorough: + 5 roots: every cyclic graph that becomes acyclic by removing one edge x all
 //	          120 orders; self-dependency graphs on 4 roots; 4 roots: every DAG x every
 //	          order x 2 non-plain roots; 5 roots: every labelled DAG x {identity, reversed}
 //	          order x 1 non-plain root; 6 roots: every labelled DAG x {identity, reversed}
 //	          order (all labellings x a fixed order = all shapes x all relative orders).
+//	          Capability families: 1 root <= 4 entries, 2 roots <= 3 entries; root kinds
+//	          x <= 3 entries (2 roots: <= 2 with one set per root, <= 1 otherwise).
 //
 // Oracle (from the property statement only, reference definitions in model.go): the order
 // returned by Context.Roots() lists each registered root once with every dependency before
@@ -27,7 +36,9 @@
 // then every Finalize (barrier over the complete callback log), per phase all callbacks of a
 // dependency precede those of the dependent root, every error reported in the failing phase
 // is contained in the error returned by RunDSL, Finalize never runs on a design that failed
-// execution or validation, a design without errors returns nil.
+// execution or validation, a design without errors returns nil. Capability families: a
+// callback is expected exactly for the interfaces the entry implements, nil entries change
+// nothing, and no Prepare/Validate runs after a failed execution.
 //
 // eval.Context is process-global, therefore cases run sequentially inside worker
 // subprocesses of this same binary (hidden first argument -c11-worker), one per core, each
@@ -57,6 +68,10 @@ type family struct {
 	n       int
 	orders  [][]int
 	configs func(yield func(edges uint64, beh []int) bool)
+	// indexed families (capability dimension): size configurations, at(i) decodes the i-th
+	// (mixed radix, so every worker jumps straight to its share); configs is nil then.
+	size int64
+	at   func(idx int64) caseSpec
 }
 
 func allOrders(n int) [][]int {
@@ -279,6 +294,7 @@ func families(tier string) []family {
 		fs = append(fs, b5)
 		fs = append(fs, dag6Family())
 	}
+	fs = append(fs, capFamilies(tier)...)
 	if only := os.Getenv("C11_ONLY"); only != "" { // development aid; the run is then marked incomplete
 		var sel []family
 		for _, f := range fs {
@@ -295,6 +311,15 @@ func boundsText(tier string) string {
 	s := "graphs without self-dependency: n<=4 all 2^(n(n-1)) graphs x all n! registration orders, n=5 all 29281 DAGs x 120 orders; " +
 		"self-dependency graphs: n<=3 all x all orders; behaviour menu (16): n<=3 all graphs x all orders x all behaviour vectors, " +
 		"n=4 all DAGs x 24 orders x vectors with 1 non-plain root"
+	s += "; capability families (set entry = nil or one of the 15 non-empty subsets of {Source,Preparer,Validator,Finalizer} behaving ok / failing execution / failing validation: 32 symbols; " +
+		"1-2 roots, 1-2 expression sets per root, sets may be empty; 2 roots: the 3 acyclic dependency relations x both registration orders): "
+	if tier == "thorough" {
+		s += "1 root: every design with <= 4 entries in total; 2 roots: every design with <= 3 entries; root kinds (12: subsets of {P,V,F} ok / failing validation) as a further dimension: " +
+			"1 root <= 3 entries, 2 roots <= 2 entries with one set per root, <= 1 entry otherwise"
+	} else {
+		s += "1 root: every design with <= 3 entries in total; 2 roots: every design with <= 3 entries with one set per root, <= 2 entries otherwise; " +
+			"root kinds (12: subsets of {P,V,F} ok / failing validation) as a further dimension: 1 root <= 2 entries, 2 roots <= 1 entry"
+	}
 	if tier == "thorough" {
 		s += "; n=5 all cyclic graphs that are acyclic after removing one edge x 120 orders; self-dependency graphs n=4; " +
 			"n=4 all DAGs x 24 orders x behaviour vectors with 2 non-plain roots; n=5 all labelled DAGs x {identity, reversed} order x 1 non-plain root; " +
@@ -305,6 +330,13 @@ func boundsText(tier string) string {
 
 func stateKey(f *family, edges uint64, beh []int) string {
 	return fmt.Sprintf("%s e=%x b=%v", f.name, edges, beh)
+}
+
+func stateKeyOf(f *family, cs caseSpec) string {
+	if cs.capc != nil {
+		return f.name + " e=" + strconv.FormatUint(cs.Edges, 16) + " " + cs.capc.key()
+	}
+	return stateKey(f, cs.Edges, cs.Beh)
 }
 
 // ---- worker ----------------------------------------------------------------------------
@@ -351,19 +383,15 @@ func workerMain(args []string) {
 		f := f
 		fr := famResult{Name: f.name, Complete: true}
 		var idx int64 = -1
-		f.configs(func(edges uint64, beh []int) bool {
-			idx++
-			if idx%int64(K) != int64(k) {
-				return true
-			}
+		runCfg := func(cs caseSpec) bool {
 			if expired || (fr.Configs%64 == 0 && time.Now().After(deadline)) {
 				expired = true
 				fr.Complete = false
-				fr.Frontier = fmt.Sprintf("stopped at configuration #%d (edges=%x behaviours=%v)", idx, edges, beh)
+				fr.Frontier = fmt.Sprintf("stopped at configuration #%d (%s)", idx, stateKeyOf(&f, cs))
 				return false
 			}
 			for oi, ord := range f.orders {
-				cs := caseSpec{Family: f.name, N: f.n, Edges: edges, Order: ord, Beh: beh}
+				cs.Order = ord
 				res := runCase(cs)
 				fr.Cases++
 				out.Outcomes[res.outcome]++
@@ -381,7 +409,22 @@ func workerMain(args []string) {
 			}
 			fr.Configs++
 			return true
-		})
+		}
+		if f.at != nil {
+			for idx = int64(k); idx < f.size; idx += int64(K) {
+				if !runCfg(f.at(idx)) {
+					break
+				}
+			}
+		} else {
+			f.configs(func(edges uint64, beh []int) bool {
+				idx++
+				if idx%int64(K) != int64(k) {
+					return true
+				}
+				return runCfg(caseSpec{Family: f.name, N: f.n, Edges: edges, Beh: beh})
+			})
+		}
 		out.Fams = append(out.Fams, fr)
 	}
 	for _, s := range sortedKeys(viols) {
@@ -408,14 +451,25 @@ func hasSig(cs caseSpec, sig string) bool {
 }
 
 func run(c *core.Ctx) {
-	c.Rule("one state = one configuration (family, number of roots, dependency edge set, behaviour vector); one transition = one execution of " +
+	c.Rule("one state = one configuration (family, number of roots, dependency edge set, behaviour vector; capability families: dependency edge set, kind of every root, " +
+		"number and length of its expression sets, symbol of every entry); one transition = one execution of " +
 		"Context.Roots() or RunDSL() on the real global eval.Context for a configuration under one registration order (2 per case: Roots, RunDSL); " +
-		"every configuration of the stated bound is run under every registration order of the family; non-trivial = at least one dependency edge or one non-plain behaviour")
+		"every configuration of the stated bound is run under every registration order of the family; non-trivial = at least one dependency edge or one non-plain behaviour " +
+		"(capability families: at least one set entry)")
 	c.Assume("a self-dependency (root listed in its own DependsOn) is a dependency cycle of length one: 'everything a root depends on comes before it' cannot be satisfied, so the statement leaves only 'reported as an error'")
 	c.Assume("DependsOn only names registered roots; dependencies are listed by increasing root index; test roots hand their own slices to the SetWalker lazily (a set grown before the walk reaches it is visible)")
 	c.Assume("'returned together' is decided by substring search of unique tokens in RunDSL's error text; errors expected are those actually reported during the run (eval.ReportError called / Validate returned non-nil)")
 	c.Assume("after a failed DSL phase only 'no Finalize' is asserted (the statement is silent about Prepare/Validate then); roots themselves are expressions: their Prepare/Validate/Finalize are expected like any other expression's")
+	c.Assume("capability families: the value placed in an expression set implements exactly the optional eval interfaces of its symbol (checked at start by type assertion on all 15+8 test types); " +
+		"a case built to report an error counts as failed in that phase even when the engine never runs the reporting callback; " +
+		"in these families Prepare/Validate callbacks after a failed execution are reported too (the run returns the errors of the failing phase, DESIGN C11 oracle)")
+	if err := capSelfCheck(); err != nil {
+		c.HarnessError("capability test types: %v", err)
+		return
+	}
 	c.Note("bounds", boundsText(c.Tier()))
+	c.Note("capability_alphabet", map[string]any{"set_entry_symbols": symNames(symTable), "root_kinds": symNames(rootKindTable),
+		"legend": "S=Source (has a DSL) P=Preparer V=Validator F=Finalizer; !x = the DSL reports an error; !v = Validate returns an error; nil = nil entry; R = eval.Root"})
 	c.Note("behaviour_menu", behName[:])
 
 	if os.Getenv("C11_ONLY") != "" {
@@ -480,7 +534,19 @@ func run(c *core.Ctx) {
 			}
 		}
 		var total int64
-		if complete {
+		if complete && f.at != nil {
+			for total = 0; total < f.size; total++ {
+				cs := f.at(total)
+				c.State(stateKeyOf(f, cs), cs.capc.entries() > 0)
+				if total%61 == 1 {
+					cs.Order = f.orders[len(f.orders)-1]
+					c.Sample(cs.describe())
+				}
+			}
+			if total != done || cases != total*int64(len(f.orders)) {
+				c.HarnessError("family %s: workers ran %d configurations / %d cases, enumeration has %d x %d orders", f.name, done, cases, total, len(f.orders))
+			}
+		} else if complete {
 			f.configs(func(edges uint64, beh []int) bool {
 				total++
 				c.State(stateKey(f, edges, beh), edges != 0 || beh != nil)
@@ -535,12 +601,22 @@ func run(c *core.Ctx) {
 			c.HarnessError("violation %q reported by a worker does not reproduce in the parent process: %s", sig, v.What)
 			continue
 		}
-		c.Violation(sig, fmt.Sprintf("%s [family=%s n=%d edges={%s} registration=%v behaviours=%v]", v.What, cs.Family, cs.N, cs.EdgeList, cs.Order, cs.BehNames),
+		c.Violation(sig, fmt.Sprintf("%s [family=%s n=%d edges={%s} registration=%v %s]", v.What, cs.Family, cs.N, cs.EdgeList, cs.Order, designText(cs)),
 			cs, func() bool { return hasSig(cs, sig) })
 		for i := int64(1); i < v.Count; i++ {
 			c.Violation(sig, "", nil, nil)
 		}
 	}
+}
+
+// designText describes the roots' contents of a described case.
+func designText(d caseSpec) string {
+	if d.Cap != nil {
+		if cc, err := d.Cap.compact(); err == nil {
+			return "roots=" + cc.key()
+		}
+	}
+	return fmt.Sprintf("behaviours=%v", d.BehNames)
 }
 
 func replay(c *core.Ctx, path string) {
@@ -552,8 +628,8 @@ func replay(c *core.Ctx, path string) {
 	res := runCase(cs)
 	c.Exec(2)
 	d := cs.describe()
-	fmt.Printf("replay family=%s n=%d edges={%s} registration=%v behaviours=%v outcome=%s failures=%d\n",
-		d.Family, d.N, d.EdgeList, d.Order, d.BehNames, res.outcome, len(res.fails))
+	fmt.Printf("replay family=%s n=%d edges={%s} registration=%v %s outcome=%s failures=%d\n",
+		d.Family, d.N, d.EdgeList, d.Order, designText(d), res.outcome, len(res.fails))
 	for _, s := range res.infra {
 		c.HarnessError("%s", s)
 	}
